@@ -293,6 +293,51 @@ func runCase(d *Def, c *Case) (res Res) {
 	return res
 }
 
+func shapeMatches(kind string, v interface{}) bool {
+	switch kind {
+	case "bool":
+		_, ok := v.(bool)
+		return ok
+	case "incr":
+		_, ok := v.(int)
+		return ok
+	case "string", "sopt":
+		_, ok := v.(Tok)
+		return ok
+	case "int", "iopt", "float", "fopt":
+		s, ok := v.(string)
+		return ok && s != "nil"
+	case "sslice":
+		_, ok := v.([]Tok)
+		return ok
+	case "islice", "fslice":
+		_, ok := v.([]string)
+		return ok
+	case "smap":
+		_, ok := v.([][]Tok)
+		return ok
+	}
+	return false
+}
+
+func zeroShape(kind string) interface{} {
+	switch kind {
+	case "bool":
+		return false
+	case "incr":
+		return 0
+	case "string", "sopt":
+		return Tok{}
+	case "int", "iopt", "float", "fopt":
+		return "0"
+	case "sslice":
+		return []Tok{}
+	case "islice", "fslice":
+		return []string{}
+	}
+	return [][]Tok{}
+}
+
 // sameValue - equality of option values (NaN equals NaN: floats are compared by bit pattern).
 func sameValue(kind string, a, b interface{}) bool {
 	return reflect.DeepEqual(NormVal(kind, a), NormVal(kind, b))
@@ -303,6 +348,13 @@ func (b *Built) observeOpts(res *Res, raw *strings.Builder) {
 	for i, o := range cfg.Opts {
 		v := b.PtrValue(i)
 		res.Vals[i] = NormVal(o.Kind, v)
+		shapeOK := true
+		if !shapeMatches(o.Kind, res.Vals[i]) {
+			// the library handed back something that is not a value of the option's type (e.g. nil): keep the trace
+			// well-typed for TLC and flag the case through the agreement observable
+			res.Vals[i] = zeroShape(o.Kind)
+			shapeOK = false
+		}
 		g := b.GOpts[o.Node-1]
 		name := FromAtoms(o.Name)
 		res.Called[i] = g.Called(name)
@@ -315,7 +367,7 @@ func (b *Built) observeOpts(res *Res, raw *strings.Builder) {
 				agree = false
 			}
 		}
-		res.Agree[i] = agree
+		res.Agree[i] = agree && shapeOK
 		fmt.Fprintf(raw, "%d:%#v,%v,%q|", i, v, res.Called[i], g.CalledAs(name))
 	}
 }
